@@ -67,13 +67,14 @@ const (
 	PoolB3Resplit   // B3's signature bytes split differently between the entries (ECDSA; otherwise like PoolB3Relabel)
 	PoolGenesisSigned // genesis hash, view 0, but carrying B0's (decodable, unrelated) signature: not the genesis certificate
 	PoolB3Other     // honest, block view 5 like PoolB3, but assembled by another collector: the LAST q members in reverse order (other signer set when n > q, other order for signer lists)
+	PoolB3Retyped // B3's signer ids and signature bytes under the OTHER list scheme's type (ECDSA <-> EdDSA; BLS: the same as PoolB3Relabel): cannot be verified
 	PoolSize
 )
 
 // poolValid is the ground truth for the prepared QCs; PoolBlockView the view of the certified block.
 var (
-	poolValid     = [PoolSize]bool{true, true, true, true, false, false, false, false, false, false, false, false, false, false, true}
-	PoolBlockView = [PoolSize]uint64{0, 1, 2, 5, 5, 2, 2, 3, 5, 0, 5, 5, 5, 0, 5}
+	poolValid     = [PoolSize]bool{true, true, true, true, false, false, false, false, false, false, false, false, false, false, true, false}
+	PoolBlockView = [PoolSize]uint64{0, 1, 2, 5, 5, 2, 2, 3, 5, 0, 5, 5, 5, 0, 5, 5}
 )
 
 // PoolValid reports the ground truth of pool QC i (a signer "repeated q times" is one honest signature when q == 1).
@@ -151,6 +152,21 @@ func GetWorld(scheme string, n int) *World {
 	w.Pool[PoolB3Relabel] = hotstuff.NewQuorumCert(relabelSig(w, w.Pool[PoolB3].Signature(), false), 5, w.Blocks[3].Hash())
 	w.Pool[PoolB3Resplit] = hotstuff.NewQuorumCert(relabelSig(w, w.Pool[PoolB3].Signature(), true), 5, w.Blocks[3].Hash())
 	w.Pool[PoolGenesisSigned] = hotstuff.NewQuorumCert(w.Pool[PoolB0].Signature(), 0, g.Hash())
+	w.Pool[PoolB3Retyped] = w.Pool[PoolB3Relabel]
+	switch m := w.Pool[PoolB3].Signature().(type) {
+	case crypto.Multi[*crypto.ECDSASignature]:
+		var out crypto.Multi[*crypto.EDDSASignature]
+		for _, e := range m {
+			out = append(out, crypto.RestoreEDDSASignature(e.ToBytes(), e.Signer()))
+		}
+		w.Pool[PoolB3Retyped] = hotstuff.NewQuorumCert(out, 5, w.Blocks[3].Hash())
+	case crypto.Multi[*crypto.EDDSASignature]:
+		var out crypto.Multi[*crypto.ECDSASignature]
+		for _, e := range m {
+			out = append(out, crypto.RestoreECDSASignature(e.ToBytes(), e.Signer()))
+		}
+		w.Pool[PoolB3Retyped] = hotstuff.NewQuorumCert(out, 5, w.Blocks[3].Hash())
+	}
 	w.Pool[PoolB3Other] = w.Pool[PoolB3]
 	if w.Q >= 2 {
 		var last []*kit.Member
